@@ -108,6 +108,18 @@ def adjoint_tests(which):
         B = pr.unfocus_fixed_sampling(x2, odx, efl, wvl, dx, (m, n))
         BH = pr.unfocus_fixed_sampling_backprop(y2, odx, efl, wvl, dx, (M, N))
         check('unfocus-adjoint', bool(np.isclose(inner(y2, B), inner(BH, x2))))
+        # with image- and pupil-plane shifts (each in the units of its output plane), functions and Wavefront methods
+        sh = (float(rng.uniform(-3, 3)) * odx, float(rng.uniform(-3, 3)) * odx)
+        bsh = (float(rng.uniform(-3, 3)) * dx, float(rng.uniform(-3, 3)) * dx)
+        A = pr.focus_fixed_sampling(x, dx, efl, wvl, odx, (M, N), shift=sh)
+        AH = pr.focus_fixed_sampling_backprop(y, dx, efl, wvl, odx, (m, n), shift=sh)
+        check('focus-adjoint-with-shift', bool(np.isclose(inner(y, A), inner(AH, x))))
+        B = pr.unfocus_fixed_sampling(x2, odx, efl, wvl, dx, (m, n), shift=bsh)
+        BH = pr.unfocus_fixed_sampling_backprop(y2, odx, efl, wvl, dx, (M, N), shift=bsh)
+        check('unfocus-adjoint-with-shift', bool(np.isclose(inner(y2, B), inner(BH, x2))))
+        Am = pr.Wavefront(x, wvl, dx).focus_fixed_sampling(efl, odx, (M, N), shift=sh).data
+        AHm = pr.Wavefront(y, wvl, odx, space='psf').focus_fixed_sampling_backprop(efl, dx, (m, n), shift=sh).data
+        check('Wavefront-method-focus-adjoint-with-shift', bool(np.isclose(inner(y, Am), inner(AHm, x))))
     elif which == 'amp-and-phase':
         amp, phs = rng.random((m, n)) + 0.1, rng.standard_normal((m, n)) * 50
         W = pr.Wavefront.from_amp_and_phase(amp, phs, wvl, dx)
@@ -134,6 +146,13 @@ def adjoint_tests(which):
             A = pr.to_fpm_and_back(x, dx, efl, wvl, fpm, odx)
             AH = pr.to_fpm_and_back_backprop(y, dx, wvl, efl, fpm, odx)
             check('adjoint', bool(np.isclose(inner(y, A), inner(AH, x))))
+            sh = (float(rng.uniform(-3, 3)) * odx, float(rng.uniform(-3, 3)) * odx)
+            A = pr.to_fpm_and_back(x, dx, efl, wvl, fpm, odx, shift=sh)
+            AH = pr.to_fpm_and_back_backprop(y, dx, wvl, efl, fpm, odx, shift=sh)
+            check('adjoint-with-shift', bool(np.isclose(inner(y, A), inner(AH, x))))
+            Am = pr.Wavefront(x, wvl, dx).to_fpm_and_back(efl, fpm, odx, shift=sh).data
+            AHm = pr.Wavefront(y, wvl, dx).to_fpm_and_back_backprop(efl, fpm, odx, shift=sh).data
+            check('Wavefront-method-adjoint-with-shift', bool(np.isclose(inner(y, Am), inner(AHm, x))))
         else:
             lyot = (rng.random((m, n)) * (np.exp(1j * rng.uniform(-1, 1, (m, n))) if rng.random() < 0.5 else 1)) if rng.random() < 0.7 else None
             A = pr.Wavefront(x, wvl, dx).babinet(efl, lyot, fpm, fpm_dx=odx).data
@@ -221,7 +240,7 @@ def adjoint_tests(which):
         yy, xx = np.mgrid[:s, :s]
         ifn = np.exp(-((yy - s // 2) ** 2 + (xx - s // 2) ** 2) / (2 * 2.0 ** 2))
         Nact = int(rng.integers(2, 5))
-        Nout = int(rng.choice([s, s + 6, s - 6]))
+        Nout = int(rng.choice([s, s + 6, s - 6, s + 5, s - 5, s - 7, s + 9]))       # pad and crop by even and odd amounts
         shift = (0, 0) if rng.random() < 0.5 else (float(rng.uniform(-1, 1)), float(rng.uniform(-1, 1)))
         dm = DM(ifn, Nout=Nout, Nact=Nact, sep=4, shift=shift)
         acts = rng.standard_normal(dm.actuators.shape)
